@@ -429,6 +429,10 @@ func applyOctetFault(kind string, env []byte, key string) []byte {
 		flipBit(p, 23)
 	case "alter_keycase":
 		flipBit(p, 8*(b+1)+2)
+	case "alter_class":
+		flipBit(p, 8*(rd-8)+7)
+	case "alter_ttl":
+		flipBit(p, 8*(rd-6)+31)
 	case "alter_time":
 		flipBit(p, 8*(tm+5)+7)
 	case "alter_mac":
@@ -503,7 +507,7 @@ func chainCase(v *vec, sum *hx.Summary, seen map[string]bool) {
 				hx.Die("TsigGenerate in chain: %v", err)
 			}
 			prev, timers = mac, true
-			for _, k := range []string{"alter_id", "alter_flags", "alter_keycase", "alter_time", "alter_mac", "alter_origid", "unsign"} {
+			for _, k := range []string{"alter_id", "alter_flags", "alter_keycase", "alter_class", "alter_ttl", "alter_time", "alter_mac", "alter_origid", "unsign"} {
 				if has(v.Faults, k, i) {
 					out = applyOctetFault(k, out, key)
 				}
@@ -549,6 +553,9 @@ func chainCase(v *vec, sum *hx.Summary, seen map[string]bool) {
 				return
 			case i >= len(want):
 				sum.Mis("tsig/chain:"+via+":extra-envelope", fmt.Sprintf("%d envelopes reported, expected %d; faults %v", len(got), len(want), v.Faults), v)
+				return
+			case got[i] && want[i] == 0 && i == 0 && onlyEffectiveOnFirst(v.Faults, "alter_class"):
+				sum.Mis(keyClassAltered, fmt.Sprintf("envelope %d (%s): the class of its TSIG record was altered after signing, yet it is reported verified; faults %v", i+1, via, v.Faults), v)
 				return
 			case got[i] && want[i] == 0:
 				sum.Mis("tsig/chain:"+via+":accepts-faulty-envelope:"+faultClass(v.Faults),
@@ -654,6 +661,27 @@ func chainCase(v *vec, sum *hx.Summary, seen map[string]bool) {
 	}
 }
 
+// keyClassAltered: the finding key of "the CLASS of the TSIG record is not covered" (RFC 8945 4.3.3), shared by
+// every stage that can see it.
+const keyClassAltered = "tsig/verify:accepts-invalid:tsig-class-altered"
+
+// onlyEffectiveOnFirst: the first delivered envelope is the sender's first one and the only fault on it that
+// the MAC must catch is `kind' (header-ID and name-case alterations are never covered).
+func onlyEffectiveOnFirst(fs []fault, kind string) bool {
+	found := false
+	for _, f := range fs {
+		switch {
+		case f.Pos != 1:
+		case f.Kind == "alter_id" || f.Kind == "alter_keycase" || f.Kind == "dup":
+		case f.Kind == kind:
+			found = true
+		default:
+			return false
+		}
+	}
+	return found
+}
+
 func faultClass(fs []fault) string {
 	var k []string
 	for _, f := range fs {
@@ -746,10 +774,6 @@ func record(which, out string, n int) {
 	algs := []string{dns.HmacSHA1, dns.HmacSHA224, dns.HmacSHA256, dns.HmacSHA384, dns.HmacSHA512, "HMAC-SHA256."}
 	keys := []string{"key.example.", "k.", "Mixed.Case.Key."}
 	idx := 0
-	allBits := 2 // cases whose every bit is flipped; a sample of 96 bits for the others
-	if hx.Thorough() {
-		allBits = 8
-	}
 	for c := 0; c < n; c++ {
 		m := msgs[rnd.Intn(len(msgs))].Copy()
 		if c < len(msgs) {
@@ -833,12 +857,10 @@ func record(which, out string, n int) {
 		for _, d := range []int64{-301, -300, 300, 301} {
 			emit("now", signed, reqmac, timers, uint64(int64(now)+d), "hook", table)
 		}
-		// every single-bit alteration of the signed octets (all of them for the first cases, a sample afterwards)
+		// every single-bit alteration of the complete signed octets: message, TSIG owner name, type, class, TTL,
+		// RDLENGTH and every RDATA field
 		nb := 8 * len(signed)
 		for b := 0; b < nb; b++ {
-			if c >= allBits && rnd.Intn(nb) >= 96 {
-				continue
-			}
 			o := append([]byte(nil), signed...)
 			flipBit(o, b)
 			if b%2 == 0 {
@@ -878,8 +900,8 @@ func record(which, out string, n int) {
 		fa("origid+1", func(t *tsigFields) { t.origid++ })
 		fa("error", func(t *tsigFields) { t.err ^= 16 })
 		fa("other-added", func(t *tsigFields) { t.other = append(t.other, 7) })
-		fa("class-in", func(t *tsigFields) { t.class = dns.ClassINET }) // outside RFC 8945 4.2: verdict not asserted
-		fa("ttl-1", func(t *tsigFields) { t.ttl = 1 })                   // idem
+		fa("class-in", func(t *tsigFields) { t.class = dns.ClassINET }) // class and TTL are TSIG variables: not what was signed
+		fa("ttl-1", func(t *tsigFields) { t.ttl = 1 })
 		// parameters of the verification
 		emit("param:secret", signed, reqmac, timers, now, "hook", map[string]int{key: (si + 1) % len(secrets), strings.ToLower(key): (si + 1) % len(secrets)})
 		emit("param:secret", signed, reqmac, timers, now, "public", map[string]int{"": (si + 2) % len(secrets)})
@@ -918,7 +940,10 @@ type specLine struct {
 	I      int    `json:"i"`
 	Ev     string `json:"ev"`
 	St     string `json:"st"`
+	Wf     bool   `json:"wf"`
 	Strict bool   `json:"strict"`
+	Class  int    `json:"class"`
+	TTL    []int  `json:"ttl"`
 	Key    []hx.B `json:"key"` // as spelled on the wire
 	Alg    []hx.B `json:"alg"`
 	Digest hx.B   `json:"digest"`
@@ -927,6 +952,15 @@ type specLine struct {
 }
 
 func whatClass(w string) string { return w }
+
+func ttlZero(t []int) bool {
+	for _, x := range t {
+		if x != 0 {
+			return false
+		}
+	}
+	return true
+}
 
 func judge(tracePath, specPath string) {
 	var sum hx.Summary
@@ -982,7 +1016,7 @@ func judge(tracePath, specPath string) {
 				determined = false // hmac-md5 is an RFC 8945 algorithm the library does not implement: either verdict
 			}
 			if !s.Strict {
-				determined = false // class / TTL / trailing octets outside RFC 8945 4.2 (AMBIG in Tsig.tla)
+				determined = false // a valid MAC over an odd class / TTL, cut RDATA, trailing octets: may be refused (AMBIG in Tsig.tla)
 			}
 			if expect && e.Via != "public" {
 				if _, exact := e.Secrets[keyWire]; !exact {
@@ -997,7 +1031,9 @@ func judge(tracePath, specPath string) {
 			nundet++
 		}
 		switch {
-		case real && !expect && (s.St != "ok" || s.Strict):
+		case real && !expect && s.St == "ok" && s.Wf && why == "mac" && s.Class != dns.ClassANY && ttlZero(s.TTL):
+			sum.Mis(keyClassAltered, fmt.Sprintf("%s (%s): verified although the MAC does not cover the class %d of the TSIG record as received", e.What, e.Via, s.Class), e)
+		case real && !expect && (s.St != "ok" || s.Wf):
 			sum.Mis("tsig/verify:accepts-invalid:"+why+":"+e.Via, fmt.Sprintf("%s: verified although the specification says %s", e.What, why), e)
 		case !real && expect && determined:
 			sum.Mis("tsig/verify:rejects-valid:"+whatClass(e.What)+":"+e.Via, fmt.Sprintf("%s: rejected (%s) although MAC and time are valid", e.What, e.Got), e)
